@@ -72,3 +72,118 @@ func marks(v Value, off int, out *[]Mark) int {
 	}
 	return off
 }
+
+// MaxDeclared walks b structurally as a value of type t, as far as it is
+// well-formed, and returns the largest length or element count declared by
+// any header it meets (negative declarations count as 0). It never allocates
+// from declared sizes.
+func MaxDeclared(t Type, b []byte) int64 {
+	var max int64
+	walkDeclared(t, b, 0, 0, &max)
+	return max
+}
+
+func walkDeclared(t Type, b []byte, off, depth int, max *int64) (int, bool) {
+	if depth > 64 {
+		return off, false
+	}
+	need := func(n int) bool { return off+n <= len(b) && off+n >= off }
+	switch t {
+	case Bool, I8:
+		return off + 1, need(1)
+	case I16:
+		return off + 2, need(2)
+	case I32:
+		return off + 4, need(4)
+	case I64, Double:
+		return off + 8, need(8)
+	case Binary:
+		if !need(4) {
+			return off, false
+		}
+		x, _ := rd(b, off, 4)
+		l := int64(int32(x))
+		if l > *max {
+			*max = l
+		}
+		if l < 0 || off+4+int(l) > len(b) {
+			return off, false
+		}
+		return off + 4 + int(l), true
+	case Struct:
+		for {
+			if !need(1) {
+				return off, false
+			}
+			ft := Type(b[off])
+			off++
+			if ft == 0 {
+				return off, true
+			}
+			if !ft.Valid() || !need(2) {
+				return off, false
+			}
+			off += 2
+			n, ok := walkDeclared(ft, b, off, depth+1, max)
+			if !ok {
+				return n, false
+			}
+			off = n
+		}
+	case Map:
+		if !need(6) {
+			return off, false
+		}
+		kt, vt := Type(b[off]), Type(b[off+1])
+		x, _ := rd(b, off+2, 4)
+		c := int64(int32(x))
+		if c > *max {
+			*max = c
+		}
+		off += 6
+		if c < 0 {
+			return off, false
+		}
+		for i := int64(0); i < c; i++ {
+			if !kt.Valid() || !vt.Valid() {
+				return off, false
+			}
+			n, ok := walkDeclared(kt, b, off, depth+1, max)
+			if !ok {
+				return n, false
+			}
+			n, ok = walkDeclared(vt, b, n, depth+1, max)
+			if !ok {
+				return n, false
+			}
+			off = n
+		}
+		return off, true
+	case Set, List:
+		if !need(5) {
+			return off, false
+		}
+		et := Type(b[off])
+		x, _ := rd(b, off+1, 4)
+		c := int64(int32(x))
+		if c > *max {
+			*max = c
+		}
+		off += 5
+		if c < 0 {
+			return off, false
+		}
+		for i := int64(0); i < c; i++ {
+			if !et.Valid() {
+				return off, false
+			}
+			n, ok := walkDeclared(et, b, off, depth+1, max)
+			if !ok {
+				return n, false
+			}
+			off = n
+		}
+		return off, true
+	}
+	return off, false
+}
